@@ -82,6 +82,11 @@ def run(chk: Check):
                     got = float(MinkowskiLoss(p=p, coordinate_weights=wnp, coordinate_filters=fl).compute_loss(sim, real))
                     want = ref.minkowski(sim, real, p, weights, fl)
                     opts = {"p": p, "filters": ftags}; tol = 1e-9
+                    if n <= 60:
+                        fs = [None] * d if fl is None else fl
+                        cols = [np.array([fs[i](sim[j, :, i]) if fs[i] is not None else sim[j, :, i] for j in range(e)]) for i in range(d)]
+                        model_lean.append(("MinkowskiLoss.compute_loss != BlackIt.Loss.minkowskiPowSum^(1/p) (binary64 instance)", got, [1.0 / d] * d if weights is None else list(weights), case,
+                                           [f"loss.minkowski {p} {e} {n} " + " ".join(f2h(x) for x in cols[i].reshape(-1)) + " " + " ".join(f2h(x) for x in real[:, i]) for i in range(d)]))
                 elif which == "msm":
                     if n < 12:
                         n = 12; sim, real, shape = gen_data(rng, e, n, d, shape)
@@ -94,6 +99,11 @@ def run(chk: Check):
                     else:
                         got = float(MethodOfMomentsLoss(covariance_mat=cov, coordinate_weights=wnp, standardise_moments=std).compute_loss(sim, real))
                         want = ref.msm(sim, real, cov, std, weights)
+                        if n <= 60:
+                            model_lean.append(("MethodOfMomentsLoss.compute_loss != BlackIt.Loss.msmIdentity/msmInverseVariance over the 18-moment summary (binary64 instance)", got,
+                                               [1.0 / d] * d if weights is None else list(weights), case,
+                                               [f"loss.msm {0 if cov == 'identity' else 1} {int(std)} {e} {n} " + " ".join(f2h(x) for x in sim[:, :, i].reshape(-1)) + " "
+                                                + " ".join(f2h(x) for x in real[:, i]) for i in range(d)]))
                     opts = {"cov": cov, "standardise": std}; tol = 1e-7
                     # the moment summary itself
                     for j in range(min(e, 2)):
@@ -173,10 +183,11 @@ def run(chk: Check):
             eff = case["case"].get("eff", [99, 99])
             if eff[0] >= 10 or eff[1] >= 16:
                 continue      # base-10 packing artefacts at >= 10 symbols / long words are the recorded finding (the model packs exactly like the code, but in unbounded integers)
-        if not (close(got, model, 1e-9, 1e-12) or (got != got and model != model)):
+        rel = 1e-6 if what.startswith("MethodOfMoments") else 1e-9      # higher moments and autocorrelations: sums in another order, cancellation
+        if not (close(got, model, rel, 1e-12) or (got != got and model != model)):
             chk.disagree(what, {"impl": got, "model": model, "per_coordinate_model": vals, **case})
     # discrete intermediates of GSL-div: exact, against the Lean model
-    reqs, metas = [], []
+    reqs, metas, disc_reqs, disc_meta = [], [], [], []
     for _ in range(150 if chk.tier == "quick" else 2000):
         n = rng.randint(2, 30); nv = rng.choice([2, 3, 5, 9, 9, 12])
         ts = np.array([rng.uniform(-3, 3) if rng.random() < 0.8 else rng.choice([-3.0, 0.0, 3.0]) for _ in range(n)])
@@ -189,7 +200,12 @@ def run(chk: Check):
         L = rng.randint(1, min(6, n))
         words = GslDivLoss.get_words(sym, L).tolist()
         reqs.append(f"gsl.words {len(sym)} " + " ".join(map(str, sym.tolist())) + f" {L}"); metas.append((sym.tolist(), L, words, nv))
+        disc_reqs.append(f"gsl.discretize {nv} {len(ts)} " + " ".join(f2h(x) for x in ts.tolist())); disc_meta.append((ts.tolist(), nv, sym.tolist()))
         chk.case(["words", sym.tolist(), L], nv >= 3 and L >= 2, {"symbols": sym.tolist()[:10], "word_length": L, "words": words[:6]})
+    for (ts_l, nv, sym), ans in zip(disc_meta, lean_run(disc_reqs)):
+        chk.count("discretize_vs_lean_model")
+        if ",".join(map(str, sym)) != ans:
+            chk.disagree("GslDivLoss.discretize != BlackIt.Gsl.discretize (binary64 instance, exact)", {"ts": ts_l, "nb_values": nv, "impl": sym[:12], "model": ans[:60]})
     for (sym, L, words, nv), ans in zip(metas, lean_run(reqs)):
         mw, tup = ans.split(" | ")
         if ",".join(map(str, words)) != mw:
